@@ -52,6 +52,12 @@ def skeletons(tier):
             for tk in ((5,) if (tier == "quick" and ml == 2) else (1, 5)):
                 causal = sum(len(it[1]) for it in st) >= 3 or any(len(it) > 2 for it in st)
                 out.append({"id": f"{k}-len{ml}-top{tk}", "struct": st, "params": {"minlen": ml, "topk": tk, "causal": causal}})
+    # "every operator name occurring in it": names that are not plain identifiers (torch.profiler writes such
+    # annotations), matched literally
+    for nm, tag in (("enumerate(DataLoader)#_SingleProcessDataLoaderIter.__next__", "paren"), ("aten::add_.Tensor[out]", "bracket"),
+                    ("Optimizer.step#SGD.step+fused", "plus")):
+        out.append({"id": f"B-len1-top5-name-{tag}", "struct": S["B"], "params": {"minlen": 1, "topk": 5, "causal": True,
+                                                                                "opname": nm}})
     return out
 
 
@@ -61,7 +67,7 @@ def build(sk):
     for i, item in enumerate(sk["struct"]):
         par, ks = item[0], item[1]
         wrapper = len(item) > 2
-        ev.append(TG.op("aten::wrapper" if wrapper else OPNAME, f"$i{i}_ts", f"$i{i}_dur"))
+        ev.append(TG.op("aten::wrapper" if wrapper else sk["params"].get("opname", OPNAME), f"$i{i}_ts", f"$i{i}_dur"))
         I = {"id": len(ev) - 1, "ts": f"$i{i}_ts", "dur": f"$i{i}_dur", "parent": par, "kernels": [], "launches": [],
              "match": not wrapper}
         for j, ch in enumerate(ks):
@@ -120,7 +126,8 @@ def run(ctx):
         import os
         outdir = os.path.join(ctx.outdir, "..", "overlay")
         os.makedirs(outdir, exist_ok=True)
-    res = ta.get_frequent_cuda_kernel_sequences(OPNAME, outdir, min_pattern_len=P["minlen"], rank=0, top_k=P["topk"],
+    OP = P.get("opname", OPNAME)
+    res = ta.get_frequent_cuda_kernel_sequences(OP, outdir, min_pattern_len=P["minlen"], rank=0, top_k=P["topk"],
                                                 visualize=False)
 
     def all_kernels(i):
@@ -141,6 +148,10 @@ def run(ctx):
         if ctx.mode == "sym":
             ctx.nontrivial(True)
         return
+    has_cols = all(c in list(res.columns) for c in ("pattern", "count", "GPU kernel duration (us)", "CPU op duration (us)"))
+    ctx.prove(has_cols, "result-is-a-pattern-table", {"cols": list(res.columns), "considered": len(considered)})
+    if not has_cols:
+        return
     pats = [str(x) for x in ctx.cells(res["pattern"])]
     cnt = [int(x) for x in ctx.cells(res["count"])]
     gdur = ctx.cells(res["GPU kernel duration (us)"])
@@ -159,7 +170,7 @@ def run(ctx):
             cond = True
             for a, b in zip(perm, perm[1:]):
                 cond = sand(cond, ks[a]["ts"] <= ks[b]["ts"])
-            opts.append((cond, "|".join([OPNAME] + [ks[a]["name"] for a in perm])))
+            opts.append((cond, "|".join([OP] + [ks[a]["name"] for a in perm])))
         # identical pattern strings collapse
         merged = {}
         for c, p in opts:
